@@ -67,6 +67,16 @@ def main() -> int:
         json.dump(manifest, f, indent=1)
         f.write('\n')
     print(f'MANIFEST.json: {len(checks)} checks, {len(not_applicable)} not claimed')
+    import subprocess
+    dirty = subprocess.run('git -C /repo status --porcelain --untracked-files=no', shell=True, capture_output=True, text=True).stdout.strip()
+    if dirty:
+        print('SOURCE_FINGERPRINT.json NOT rewritten: /repo has local modifications')
+    else:
+        head = subprocess.run('git -C /repo rev-parse --short HEAD', shell=True, capture_output=True, text=True).stdout.strip()
+        # digests depend on the interpreter's AST: computed by the interpreter that runs the checks
+        subprocess.run([PY, '-c', f"import sys; sys.path.insert(0, {os.path.join(ROOT, 'harness')!r}); "
+                                  f"from core import fingerprint; fingerprint.write('/repo', {head!r})"], check=True)
+        print(f'SOURCE_FINGERPRINT.json: /repo {head}')
     return 0
 
 
